@@ -520,6 +520,15 @@ def check_operand_types(col, repo: Repo, m):
     col.add("C09.R8", f.short, "operand-types-validated-for-every-operator", ok,
             "most_accurate_type([left.cpp_type(), right.cpp_type()]) is the only refusal of arithmetic on non-numbers; it must run on every "
             "path, including the one for `/` whose result type is fixed", f.loc)
+    vu = m.get("visit_UnaryOp")
+    pmu = parent_map(vu.node)
+    mats = [c for c in walk_no_nested(vu.node) if isinstance(c, ast.Call) and call_name(c) in ("most_accurate_type", "check_accumulator_type")
+            and "operand.cpp_type()" in src(c)]
+    # validated on every path that renders `+`/`-` (a guard that exempts `not` is fine)
+    oku = len(mats) >= 1 and all(all("ast.Not" in src(t) or "_known_unary_operators" in src(t) for t, _ in guards(vu.node, c, pmu)) for c in mats)
+    col.add("C09.R8", vu.short, "unary-arithmetic-operand-validated", oku,
+            "`-x` / `+x` are arithmetic: the operand's type must go through most_accurate_type like the operands of the binary operators, otherwise "
+            "-e.Jets('A') or -j on an object is translated to (-(jets0)) instead of being refused", vu.loc)
     g = m.get("visit_special_BinOp")
     has = any(isinstance(c, ast.Call) and call_name(c) in ("most_accurate_type", "check_accumulator_type") for c in ast.walk(g.node))
     col.add("C09.R8", g.short, "power-operands-validated", has,
